@@ -76,6 +76,19 @@ def spreading_values(sv, ridges):
     return out
 
 
+def spreading_term(sv, ridges):
+    """the same table as an OCaml term that lets the *model* (Validate.group_velocities, the constructor's loop) hand every
+    ridge coordinate its velocity from the flat list of listed values; None when the implementation rejects the list"""
+    if spreading_values(sv, ridges) is None:
+        return None
+    if isinstance(sv, (int, float)):
+        flat = [float(sv)]
+    else:
+        flat = [float(x) for e in sv if isinstance(e, list) and len(e) == 2 and isinstance(e[1], list) for row in e[1] for x in row]
+    return "(group_velocities %s %s %s (nat_of_int 0) 0.0)" % (
+        mlist(["(nat_of_int %d)" % len(r) for r in ridges]), "true" if len(flat) == 1 else "false", mlist([ml(v) for v in flat]))
+
+
 class Elab:
     """JSON world -> OCaml term `float world` (and bookkeeping the checks need)"""
 
@@ -162,7 +175,7 @@ class Elab:
                 "THalfSpace" if k == "half space model" else "TPlateModel", mn, mx, o,
                 ml(m.get("top temperature", 293.15)), ml(m.get("bottom temperature", -1)),
                 mlist([mlist([mpt(p) for p in ridge]) for ridge in ridges]),
-                mlist([mlist([ml(v) for v in vs]) for vs in svs]))
+                spreading_term(m.get("spreading velocity", 0.05), m["ridge coordinates"]))
         if k == "plate model constant age":
             return "TPlateConstAge (%s, %s, %s, %s, %s, %s)" % (
                 mn, mx, o, ml(m.get("top temperature", 293.15)), ml(m.get("bottom temperature", -1)), ml(m.get("plate age", 80e3) * 31557600))
@@ -304,7 +317,7 @@ class Elab:
                                   ml(m.get("forearc cooling factor", 1.0)), ml(m.get("taper distance", 100e3)),
                                   ml(self.alpha if al < 0 else al), ml(self.cp if cp < 0 else cp), ml(self.kappa if kp < 0 else kp),
                                   "true" if m.get("adiabatic heating", True) else "false", ml(Tp), ml(self.Ts),
-                                  mlist([mlist([mpt(p) for p in ridge]) for ridge in ridges]), mlist([mlist([ml(v) for v in vs]) for vs in svs]),
+                                  mlist([mlist([mpt(p) for p in ridge]) for ridge in ridges]), spreading_term(m.get("spreading velocity", 0.05), m["ridge coordinates"]),
                                   ml(m.get("subducting velocity", 0.05)), "true" if m.get("reference model name", "half space model") == "plate model" else "false",
                                   ("Some (%s)" % natlit(int(m.get("number of points in spline", 5)))) if m.get("apply spline", False) else "None"))
                 elif k == "plate model" and not fault:
